@@ -24,7 +24,7 @@ RULE = ("each case: an original file of 0-200 bytes and up to 20 operations: del
 LEVEL_TEXT = "Random histories against a byte-array model, with offsets generated relative to the state that matters (download position, pending overwrites)."
 ASSUMPTIONS = ["the temporary file is the real EncryptedTemporaryFile (key from the seeded urandom); what close() would upload is the whole file read to EOF", "consumer family: no overwrite or size change is issued while a read is waiting (OverwriteableFileConsumer.read documents this as the caller's obligation); several reads may wait at once",
                "handle family: a readChunk that is still waiting for the download when a later writeChunk/setAttrs/close is requested is not asserted (GeneralSFTPFile does not hold later requests back until the read has been answered; the statement orders client operations and does not speak about overlapping ones)"]
-REQUIRED_CLASSES = ["uploaded", "size-changed", "close-waits-for-download", "two-reads-outstanding", "mutable-node", "immutable-node", "overwrite-ahead", "overwrite-nested-in-pending", "overwrite-overlaps-pending", "overwrite-behind", "overwrite-past-eof", "truncate", "extend", "read-waits-for-download", "read-eof"]
+REQUIRED_CLASSES = ["requests-queued-before-version-lookup-finished", "uploaded", "size-changed", "close-waits-for-download", "two-reads-outstanding", "mutable-node", "immutable-node", "overwrite-ahead", "overwrite-nested-in-pending", "overwrite-overlaps-pending", "overwrite-behind", "overwrite-past-eof", "truncate", "extend", "read-waits-for-download", "read-eof"]
 BUDGET = {"quick": 600, "thorough": 3600}
 
 
@@ -66,7 +66,9 @@ hop = st.one_of(
 def handle_cases(draw):
     return {"fam": "handle", "size": draw(st.sampled_from([0, 1, 10, 50, 100, 200]) | st.integers(0, 200)), "mutable": draw(st.booleans()),
             "flags": draw(st.sampled_from(["rw", "rw", "rw", "w", "rw-append", "rw-trunc", "rw-creat"])),
-            "ops": draw(st.lists(hop, max_size=20)), "close_at": draw(st.sampled_from(["after-download", "before-download-finished"]))}
+            "ops": draw(st.lists(hop, max_size=20)), "close_at": draw(st.sampled_from(["after-download", "before-download-finished"])),
+            # the lookup of the file's current version (the first thing open() waits for) completes after this many requests have been queued (99 = only after close was requested)
+            "lookup_after": draw(st.sampled_from([0, 0, 0, 1, 2, 3, 99]))}
 
 
 def run_shard(spec, ctx):
@@ -120,7 +122,10 @@ def run_handle_case(case, ctx):
             return len(original)
 
         def get_best_readable_version(self):
-            return defer.succeed(self)
+            if not case.get("lookup_after"):
+                return defer.succeed(self)
+            self.vd = defer.Deferred()
+            return self.vd
 
         def read(self, consumer, offset=0, size=None):
             self.consumer = consumer
@@ -213,8 +218,20 @@ def run_handle_case(case, ctx):
                 elif res != r[2]:
                     first = next((i for i in range(min(len(res), len(r[2]))) if res[i] != r[2][i]), min(len(res), len(r[2])))
                     ctx.fail("read-differs", "%s: readChunk(offset=%d, length=%d) returned %d bytes; byte %d differs from the contents after the requests issued before it" % (desc(), r[0], r[1], len(res), r[0] + first))
+    nreq = [0]
+
+    def lookup_done():
+        vd = getattr(node, "vd", None)
+        if vd is not None and not vd.called:
+            classes.add("requests-queued-before-version-lookup-finished")
+            vd.callback(node)
+            boot.drain()
     for o in case["ops"]:
         kind = o[0]
+        if nreq[0] >= case.get("lookup_after", 0):
+            lookup_done()
+        if kind != "deliver":
+            nreq[0] += 1
         if kind == "deliver":
             deliver(o[1])
         elif kind == "write":
@@ -283,6 +300,8 @@ def run_handle_case(case, ctx):
         boot.drain()
         check_reads()
     size_was_changed = "size-changed" in classes
+    if case.get("lookup_after", 0) < 99:
+        lookup_done()
     if case["close_at"] == "after-download":
         while not done_dl[0] and node.consumer is not None:
             deliver(16)
@@ -291,6 +310,7 @@ def run_handle_case(case, ctx):
     cres = []
     h.close().addBoth(cres.append)
     boot.drain()
+    lookup_done()
     if not cres:
         classes.add("close-waits-for-download")
     guard = 0
